@@ -23,6 +23,9 @@ func init() {
 
 func rulesC05(p *Prog, r *Report) {
 	eng := sharedEngine(p)
+	// acceptance is decided by scanning and parsing the argument, by nothing else about it (no cache keyed
+	// by a transformed text, no pre-normalisation)
+	ruleW1(p, r)
 	r.Rule("G1", "necessary", 5, "operator table agreement between scanner and parser")
 	r.Rule("G2", "necessary", 2, "keyword order: a scanner keyword that is a prefix of another is tried after it; every keyword reader is tried before the id reader")
 	r.Rule("G3", "necessary", 4, "token-role agreement: every role stored into a token by the scanner is tested by the parser and vice versa")
